@@ -17,7 +17,12 @@ PID = "C02"
 EPS = 2.0 ** -52
 TAGS = ["lower", "unit_lower", "upper", "unit_upper", "spd", "semi", "indef", "cg"]
 EXACT_TAGS = TAGS[:5]                      # covered by the Q model
-MODEL_KINDS = ("exact", "lustruct")        # case kinds the extracted model is run on (lustruct: pivots exact, factor 1e-12)
+MODEL_KINDS = ("exact", "lustruct", "xlsq") # xlsq: exact model comparison + normal equations exactly zero (rank-deficient semi-definite systems)
+FMODEL_KINDS = ("fmodel", "flsq")          # case kinds the extracted model is run on OVER IEEE DOUBLES (driver line "F <case>"): square
+                                           # roots are not rational there; integer results equal, values within F_TOL
+F_TOL = Fr(1, 10 ** 9)
+LSQ_KINDS = ("lsq", "flsq", "xlsq")        # rank-deficient semi-definite systems: the monitor is the normal equations
+PS_BS = 20                                 # block_size of kernels/default/pstrf.hpp
 LU_TOL = Fr(1, 10 ** 12)
 C_RES = 64.0                               # residual monitor: |Ax-b| <= C_RES * n * eps * (|A||x| + |b|)
 BIG = [31, 32, 33, 40]                     # sizes around the blocking threshold 32 of trsm/potrf (rhs panel 16, getrf 4, pstrf 20)
@@ -162,7 +167,216 @@ def rank_of(a):
         rk += 1
     return rk
 
+
+# ---------------------------------------------------------------- pivoted Cholesky: exactly representable runs
+def fr_sqrt(x):
+    """exact square root of a rational that is a perfect square, else None"""
+    x = Fr(x)
+    if x < 0: return None
+    rp, rq = math.isqrt(x.numerator), math.isqrt(x.denominator)
+    return Fr(rp, rq) if rp * rp == x.numerator and rq * rq == x.denominator else None
+def py_pstrf(a, bs=PS_BS):
+    """reference run in exact rationals of the pivoted Cholesky as coded (threshold, first-largest pivot, symmetric swap, lazy
+    column update inside a block, trailing update after it).  Used by the GENERATOR only, to accept matrices on which every
+    pivot has an exact square root; returns None otherwise, else (rank, matrix left behind, pivot vector)"""
+    n = len(a); a = [list(r) for r in a]; perm = list(range(n)); pv = [Fr(0)] * n
+    md = a[0][0]
+    for i in range(1, n): md = max(md, abs(a[i][i]))
+    eps = n * n * Fr(EPS) * md
+    for k in range(0, n, bs):
+        cs = min(n - k, bs)
+        for j in range(cs):
+            c = k + j
+            if j == 0:
+                for i in range(k, n): pv[i] = a[i][i]
+            else:
+                for i in range(c, n): pv[i] -= a[i][c - 1] ** 2
+            p = c
+            for i in range(c + 1, n):
+                if pv[p] < pv[i]: p = i
+            if p != c:
+                perm[c] = p; a[c], a[p] = a[p], a[c]
+                for row in a: row[c], row[p] = row[p], row[c]
+                pv[c], pv[p] = pv[p], pv[c]
+            if pv[c] <= eps:
+                for i in range(c, n):
+                    for jj in range(c, n): a[i][jj] = Fr(0)
+                return c, a, perm
+            d = fr_sqrt(pv[c])
+            if d is None: return None
+            a[c][c] = d
+            for i in range(c + 1, n): a[i][c] = (a[i][c] - sum(a[i][t] * a[c][t] for t in range(k, c))) / d
+            for jj in range(c + 1, n): a[c][jj] = Fr(0)
+        if k + cs < n:
+            e = k + bs
+            upd = [[sum(a[i][t] * a[j][t] for t in range(k, e)) for j in range(e, n)] for i in range(e, n)]
+            for i in range(e, n):
+                for j in range(e, n): a[i][j] -= upd[i - e][j - e]
+    return n, a, perm
+def gen_ps_factor(rng, n, r, ties=False, zero_tail=False):
+    """lower-trapezoidal n x r factor L, power-of-two diagonal (non-increasing), such that the pivoted Cholesky of L L^T meets
+    exactly the pivots d_c^2: for every row i and column c < i the tail sum_{u >= c} L_iu^2 is <= d_c^2 (equality = a pivot tie)"""
+    ds = sorted([rng.choice([1, 2, 2, 4]) for _ in range(r)], reverse=True)
+    L = [[Fr(0)] * r for _ in range(n)]
+    vals = [Fr(0), Fr(1), Fr(-1), Fr(2), Fr(-2), Fr(1, 2), Fr(-1, 2), Fr(3), Fr(-3)]
+    for i in range(n):
+        s = Fr(0)
+        if i < r: L[i][i] = Fr(ds[i]); s = Fr(ds[i]) ** 2
+        elif zero_tail: continue
+        for u in range(min(i, r) - 1, -1, -1):
+            cap = Fr(ds[u]) ** 2 - s
+            cands = [v for v in vals if v * v <= cap]
+            if ties and rng.random() < 0.5: cands = [v for v in cands if v * v == max(w * w for w in cands)]
+            L[i][u] = rng.choice(cands); s += L[i][u] ** 2
+    return L
+def gen_pstrf_exact(rng, n, r, ties=False, zero_tail=False):
+    """symmetric positive semi-definite matrix of rank r on which the whole run of pstrf is exactly representable"""
+    for attempt in range(20):
+        L = gen_ps_factor(rng, n, r, ties, zero_tail)
+        a = mmul(L, tr(L)) if r else [[Fr(0)] * n for _ in range(n)]
+        if attempt < 15 and rng.random() < 0.8:
+            perm = list(range(n)); rng.shuffle(perm); a = [[a[perm[i]][perm[j]] for j in range(n)] for i in range(n)]
+        ref = py_pstrf(a)
+        if ref is not None and ref[0] == r and all(small_dyadic(v) for row in ref[1] for v in row): return a
+    raise RuntimeError("gen_pstrf_exact: no representable sample")
+def ps_separated(a, gap=Fr(1, 10 ** 6)):
+    """exact (square-root free) pivoted elimination: True if at every stage the largest Schur-complement diagonal entry is
+    unique by a relative margin, and the matrix has rank n or n-1 -- then rounding cannot change the pivot order, and at a
+    stop there is a single candidate (otherwise the last swap before the stop is decided by rounding noise)"""
+    n = len(a); s = [list(r) for r in a]; idx = list(range(n))
+    for c in range(n):
+        d = sorted((s[i][i] for i in idx), reverse=True)
+        if d[0] <= 0: return len(idx) <= 1 and d[0] == 0
+        if len(d) > 1 and d[0] - d[1] < gap * d[0]: return False
+        p = next(i for i in idx if s[i][i] == d[0]); idx.remove(p)
+        col = [s[i][p] for i in range(n)]
+        for i in idx:
+            for j in idx: s[i][j] -= col[i] * col[j] / d[0]
+    return True
+def gen_bbt(rng, n, r, separated=False):
+    """B B^T with a small-integer n x r matrix B (rank <= r; the pivots are not perfect squares in general)"""
+    while True:
+        b = [[rint(rng, -3, 3) for _ in range(r)] for _ in range(n)]
+        a = mmul(b, tr(b)) if r else [[Fr(0)] * n for _ in range(n)]
+        if not separated or ps_separated(a): return a
+def gen_P_cases(rng, big):
+    """streams aimed at the case splits of the pstrf proofs: rank 0, rank n, pivot ties, no swap needed / swap needed, zero trailing
+    block, sizes crossing the panel width 20 (and 40)"""
+    cases = []
+    for ao in "rc":
+        cases.append(("exact", "P %s 1 | 0" % ao)); cases.append(("exact", "P %s 1 | 4" % ao))
+        cases.append(("exact", "P %s 3 | 0 0 0 0 0 0 0 0 0" % ao))
+        cases.append(("exact", "P %s 2 | 1 0 0 4" % ao)); cases.append(("exact", "P %s 2 | 4 4 4 4" % ao))
+        sizes = [(n, rng.randint(0, n)) for n in [rng.randint(2, 12) for _ in range(6 if not big else 16)]]
+        sizes += [(n, n) for n in (rng.randint(2, 12), 20, 21)] + [(n, rng.choice([n - 1, n - 2, 19, 20, 21])) for n in ((19, 20, 21, 22, 25, 41) if big else (20, 21, rng.choice([19, 25, 41])))]
+        for (n, r) in sizes:
+            r = max(0, min(n, r))
+            cases.append(("exact", "P %s %d | %s" % (ao, n, fl(gen_pstrf_exact(rng, n, r, ties=rng.random() < 0.4, zero_tail=rng.random() < 0.25)))))
+        for n in [rng.randint(2, 10) for _ in range(4 if not big else 12)] + [rng.choice([21, 24])]:
+            r = rng.choice([n, n - 1])
+            cases.append(("fmodel", "P %s %d | %s" % (ao, n, fl(gen_bbt(rng, n, r, separated=True)))))
+            cases.append(("fmodel", "P %s %d | %s" % (ao, n, fl(gen_float(rng, n, "spd", 10.0 ** rng.choice([0, 2, 4]))))))
+    return cases
+
 def S_line(tag, side, ao, rhs, bo, n, m, a, b): return "S %s %s %s %s %s %d %d | %s | %s" % (tag, side, ao, rhs, bo, n, m, fl(a), fl(b))
+
+# ---------------------------------------------------------------- semi-definite solver: exactly representable runs
+def chol_exact(g):
+    """Cholesky factor in exact rationals if every pivot is a perfect square with a power-of-two root and every entry is a small
+    dyadic rational, else None (GENERATOR only)"""
+    n = len(g); l = [[Fr(0)] * n for _ in range(n)]
+    for j in range(n):
+        s = g[j][j] - sum(l[j][k] ** 2 for k in range(j))
+        if s <= 0: return None
+        d = fr_sqrt(s)
+        if d is None or d.numerator != 1 and d.denominator != 1 or (d.numerator * d.denominator) & (d.numerator * d.denominator - 1): return None
+        l[j][j] = d
+        for i in range(j + 1, n): l[i][j] = (g[i][j] - sum(l[i][k] * l[j][k] for k in range(j))) / d
+    return l if all(small_dyadic(v) for row in l for v in row) else None
+def semi_run_exact(a):
+    """True if the whole constructor of symm_pos_semi_definite_solver runs in exactly representable numbers on a: pstrf, and (rank
+    deficient case) the Cholesky factorisation of L^T L with power-of-two pivots"""
+    n = len(a); ref = py_pstrf(a)
+    if ref is None or not all(small_dyadic(v) for row in ref[1] for v in row): return None
+    r = ref[0]
+    if any(ref[1][t][t].numerator != 1 and ref[1][t][t].denominator != 1 for t in range(r)): return None
+    if 0 < r < n:
+        lr = [row[:r] for row in ref[1]]
+        if chol_exact(mmul(tr(lr), lr)) is None: return None
+    return r
+def rank1_block(rng, m):
+    """vector l of length m with max |l_i| a power of two and |l|^2 in {1,4,16,64}: the block l l^T has an exactly representable run"""
+    while True:
+        l = [rng.choice([Fr(0), Fr(1), Fr(-1), Fr(1), Fr(2), Fr(-2), Fr(1, 2), Fr(4)]) for _ in range(m)]
+        s = sum(v * v for v in l); mx = max(abs(v) for v in l)
+        if s in (1, 4, 16, 64) and mx in (Fr(1, 2), 1, 2, 4): return l
+def gen_semi_exact(rng, n, r, tries=1500):
+    """rank-r positive semi-definite matrix on which pstrf AND the Cholesky factorisation of L^T L are exactly representable.
+    First a random search for factors with a NON-diagonal L^T L, then the block-diagonal family (rank-one blocks l l^T, zero
+    blocks; L^T L diagonal), symmetrically permuted"""
+    if r == 0: return [[Fr(0)] * n for _ in range(n)]
+    if r == n: return gen_pstrf_exact(rng, n, n, ties=rng.random() < 0.3)
+    for _ in range(tries if n <= 8 else 0):
+        L = gen_ps_factor(rng, n, r, ties=rng.random() < 0.3)
+        g = mmul(tr(L), L)
+        if all(g[i][j] == 0 for i in range(r) for j in range(i)): continue
+        if chol_exact(g) is None: continue
+        a = mmul(L, tr(L))
+        perm = list(range(n)); rng.shuffle(perm); ap = [[a[perm[i]][perm[j]] for j in range(n)] for i in range(n)]
+        for cand in (ap, a):
+            if semi_run_exact(cand) == r: return cand
+    for attempt in range(200):
+        # r non-zero blocks with sizes summing to at most n, the rest zero rows
+        sizes = [1] * r; extra = n - r
+        zero_rows = rng.randint(0, extra) if rng.random() < 0.5 else 0
+        for _ in range(extra - zero_rows): sizes[rng.randrange(r)] += 1
+        a = [[Fr(0)] * n for _ in range(n)]; pos = 0
+        for m in sizes:
+            l = rank1_block(rng, m)
+            for i in range(m):
+                for j in range(m): a[pos + i][pos + j] = l[i] * l[j]
+            pos += m
+        perm = list(range(n)); rng.shuffle(perm); a = [[a[perm[i]][perm[j]] for j in range(n)] for i in range(n)]
+        if semi_run_exact(a) == r: return a
+    raise RuntimeError("gen_semi_exact: no representable sample")
+def gen_semi_cases(rng, big):
+    """symm_semi_pos_def solves: exact stream (model over Q, equality; normal equations exactly zero; right-hand sides in the
+    range of A give A x = b exactly), float-model stream (B B^T with small integer B, model over doubles, 1e-9)"""
+    cases = []
+    combos = [(s, ao, rhs, bo) for s in "LR" for ao in "rc" for rhs, bo in (("v", "r"), ("m", "r"), ("m", "c"))]
+    for ci, (s, ao, rhs, bo) in enumerate(combos):
+        ns = [rng.randint(1, 9) for _ in range(2 if not big else 6)] + ([rng.choice([21, 24])] if (big or ci % 4 == 0) else [])
+        for n in ns:
+            r = rng.choice([0, n, rng.randint(0, n), max(n - 1, 0), 1])
+            r = min(r, n)
+            a = gen_semi_exact(rng, n, r)
+            m = 1 if rhs == "v" else rng.choice([1, 2, 3])
+            shape = (n, m) if s == "L" else (m, n)
+            inrange = rng.random() < 0.4
+            if inrange:
+                w = [[rint(rng, -3, 3) for _ in range(shape[1])] for _ in range(shape[0])]
+                b = mmul(a, w) if s == "L" else mmul(w, a)
+            else:
+                b = [[rint(rng, -4, 4) * 4 for _ in range(shape[1])] for _ in range(shape[0])]
+            if rhs == "v": b = [[v for row in b for v in row]]
+            cases.append(("exact" if inrange else "xlsq", S_line("semi", s, ao, rhs, bo, n, m, a, b)))
+        for n in [rng.randint(2, 8) for _ in range(1 if not big else 4)]:
+            a, _ = gen_semi_deficient(rng, n)
+            m = 1 if rhs == "v" else rng.choice([1, 2])
+            shape = (n, m) if s == "L" else (m, n)
+            b = [[rint(rng, -3, 3) for _ in range(shape[1])] for _ in range(shape[0])]
+            if rhs == "v": b = [[v for row in b for v in row]]
+            cases.append(("flsq", S_line("semi", s, ao, rhs, bo, n, m, a, b)))
+    for ao in "rc":
+        for n in [rng.randint(2, 9) for _ in range(3 if not big else 8)] + [21]:
+            r = rng.randint(0, n - 1); a = gen_semi_exact(rng, n, r); m = rng.choice([1, 2, 3])
+            b = [[rint(rng, -4, 4) * 4 for _ in range(m)] for _ in range(n)]
+            cases.append(("xlsq", "Z semi %s %d %d | %s | %s" % (ao, n, m, fl(a), fl(b))))
+        for n in [rng.randint(2, 8) for _ in range(2 if not big else 6)]:
+            a, _ = gen_semi_deficient(rng, n); m = rng.choice([1, 2])
+            b = [[rint(rng, -3, 3) for _ in range(m)] for _ in range(n)]
+            cases.append(("flsq", "Z semi %s %d %d | %s | %s" % (ao, n, m, fl(a), fl(b))))
+    return cases
 
 def gen_S_exact(rng, tag, side, ao, rhs, bo, n):
     m = 1 if rhs == "v" else rng.choice([1, 2, 3, 5, 17] if n <= 12 else [2, 17, 33])
@@ -289,6 +503,8 @@ def gen_cases(rng, tier):
                 m = rng.choice([1, 2, 3]); nn = len(za)
                 b = [[(rng.uniform(-1, 1) if za is not d else float(rng.randint(-3, 3))) for _ in range(m)] for _ in range(nn)]
                 cases.append(("lsq" if za is d else "float", "Z %s %s %d %d | %s | %s" % (ztag, ao, nn, m, fl(za), fl(b))))
+    cases += gen_P_cases(rng, big)
+    cases += gen_semi_cases(rng, big)
     return cases
 def symm(a): return [[(a[i][j] + a[j][i]) / 2 for j in range(len(a))] for i in range(len(a))]
 
@@ -301,12 +517,14 @@ def resid_ok(a, x, b, left, n, exact, scale=1.0):
     if exact: return None if e == 0 else "residual %s (must be exactly 0)" % float(e)
     bound = Fr(C_RES * scale * max(n, 1) * EPS) * (ninf(a) * amax(x) + amax(b))
     return None if e <= bound else "residual %.3e > bound %.3e" % (float(e), float(bound))
-def lsq_ok(a, x, b, left, n):
-    """normal equations A'(Ax-b) = 0 for symmetric A, relative 1e-8"""
+def lsq_ok(a, x, b, left, n, exact=False):
+    """normal equations A'(Ax-b) = 0 for symmetric A, relative 1e-8 (exactly zero on the exact stream)"""
     ax = mmul(a, x) if left else mmul(x, a)
     r = [[ax[i][j] - b[i][j] for j in range(len(b[0]))] for i in range(len(b))]
     g = mmul(a, r) if left else mmul(r, a)
-    e = amax(g); bound = Fr(1e-8) * (ninf(a) * (ninf(a) * amax(x) + amax(b)) + Fr(1, 10 ** 300))
+    e = amax(g)
+    if exact: return None if e == 0 else "least-squares condition |A(Ax-b)| = %.3e (must be exactly 0)" % float(e)
+    bound = Fr(1e-8) * (ninf(a) * (ninf(a) * amax(x) + amax(b)) + Fr(1, 10 ** 300))
     return None if e <= bound else "least-squares condition |A(Ax-b)| = %.3e > %.3e" % (float(e), float(bound))
 def near(x, y, tol, what):
     e = max([abs(p - q) for r1, r2 in zip(x, y) for p, q in zip(r1, r2)] + [0])
@@ -336,7 +554,7 @@ def monitor(kind, line, o):
         if rhs == "v": b = [[v] for v in bl] if left else [bl]; x = [[v] for v in og[0]] if left else [og[0]]
         else: b = mat(n, m, bl) if left else mat(m, n, bl); x = mat(n, m, og[0]) if left else mat(m, n, og[0])
         if len(og[0]) != n * m: return ["result has %d entries, expected %d" % (len(og[0]), n * m)]
-        if kind == "lsq": msg = lsq_ok(t, x, b, left, n)
+        if kind in LSQ_KINDS: msg = lsq_ok(t, x, b, left, n, exact=(kind == "xlsq"))
         elif tag == "cg":
             ax = mmul(t, x) if left else mmul(x, t); e = amax([[ax[i][j] - b[i][j] for j in range(len(b[0]))] for i in range(len(b))])
             msg = None if e <= Fr(1e-8) * max(1, amax(b)) else "conjugate-gradient residual %.3e > 1e-8" % float(e)
@@ -405,9 +623,26 @@ def monitor(kind, line, o):
             return [x for x in [near(mmul(qd, tr(q)), a, t2, "Q D Q^T vs A"), near(mmul(tr(q), q), ident, Fr(1e-10), "Q^T Q vs I")] if x]
         if cmd == "P":
             rk = int(og[0][0]); f = mat(n, n, og[1]); p = og[2]
+            msgs = []
+            if not 0 <= rk <= n: return ["pstrf returned rank %d for a matrix of size %d" % (rk, n)]
+            if any(not (i <= int(p[i]) < n) for i in range(n)): return ["permutation entry outside [i, n): %s" % [int(v) for v in p]]
             l = [[f[i][j] if (j <= i and j < rk) else Fr(0) for j in range(n)] for i in range(n)]
-            t2 = Fr(n * n * n * 8 * EPS) * max(amax(a), Fr(1, 10 ** 300)) * 4
-            return [x for x in [near(mmul(l, tr(l)), apply_swaps(a, p, True, True), t2, "L L^T vs P^T A P (rank %d)" % rk)] if x]
+            t2 = 0 if exact else Fr(n * n * n * 8 * EPS) * max(amax(a), Fr(1, 10 ** 300)) * 4
+            pap = apply_swaps(a, p, True, True); llt = mmul(l, tr(l))
+            # the exact stream is built with rank(A) = r exactly (zero Schur complement), the other streams have a Schur
+            # complement below the threshold: the whole of P^T A P is reproduced
+            mm = near(llt, pap, t2, "L L^T vs P^T A P (rank %d)" % rk)
+            if mm: msgs.append(mm)
+            # as coded: strict upper triangle of the first rk rows cleared, trailing block cleared
+            junk = [(i, j) for i in range(n) for j in range(n) if ((j > i and i < rk) or (i >= rk and j >= rk)) and f[i][j] != 0]
+            if junk: msgs.append("entry (%d,%d) of the matrix left behind is %s, expected 0 (cleared part)" % (junk[0][0], junk[0][1], float(f[junk[0][0]][junk[0][1]])))
+            dg = [f[t][t] for t in range(rk)]
+            if any(d <= 0 for d in dg): msgs.append("pivot %d is not positive: %s" % ([d <= 0 for d in dg].index(True), float([d for d in dg if d <= 0][0])))
+            slack = 0 if exact else Fr(1, 10 ** 12)
+            dec = [t for t in range(rk - 1) if dg[t + 1] > dg[t] * (1 + slack)]
+            if dec: msgs.append("pivots increase at %d: %.17g < %.17g (max-diagonal rule)" % (dec[0], float(dg[dec[0]]), float(dg[dec[0] + 1])))
+            if exact and rk != rank_of(a): msgs.append("pstrf returned rank %d, the matrix has rank %d" % (rk, rank_of(a)))
+            return msgs
     if cmd == "Z":
         tag, n, m = h[1], int(h[3]), int(h[4])
         if og is None: return ["decomposition class reported an error (%s)" % o]
@@ -416,7 +651,7 @@ def monitor(kind, line, o):
         b0 = [[r[0]] for r in b]
         msgs = []
         for (xx, bb, left, nm) in ((x, b, True, "solve(B,left)"), (y, tr(b), False, "solve(B,right)"), (xv, b0, True, "solve(b,left)"), (yv, tr(b0), False, "solve(b,right)")):
-            mm = lsq_ok(a, xx, bb, left, n) if kind == "lsq" else resid_ok(a, xx, bb, left, n, False, scale=(1e4 if tag == "eig" else 1.0))
+            mm = lsq_ok(a, xx, bb, left, n, exact=(kind == "xlsq")) if kind in LSQ_KINDS else resid_ok(a, xx, bb, left, n, False, scale=(1e4 if tag == "eig" else 1.0))
             if mm: msgs.append(nm + ": " + mm)
         return msgs
     return []
@@ -429,6 +664,7 @@ def same(model_line, impl_line):
         if m is not None and i is not None and model_line.startswith("Z "):
             # Z uses ONE right-hand side B = A X for all four calls: only the left solves (groups 0, 2) have exactly
             # representable results; the right solves are tied exactly by the "S indef R" lines and residual-monitored here
+            if len(m) == 5: return m == i          # Z semi (symmetric matrix): all four solves and the rank
             return len(m) == len(i) and m[0] == i[0] and m[2] == i[2]
         return m == i
     except ValueError: return False
@@ -441,6 +677,15 @@ def close_lu(model_line, impl_line):
     if m is None or i is None: return m is None and i is None
     if len(m) != 2 or len(i) != 2 or m[1] != i[1] or len(m[0]) != len(i[0]): return False
     return all(abs(x - y) <= LU_TOL * max(1, abs(x)) for x, y in zip(m[0], i[0]))
+
+def close_f(model_line, impl_line):
+    """model run over IEEE doubles vs implementation: same status, integers equal, values within F_TOL (relative to max(1,|x|))"""
+    if model_line.split(" ")[:2] != impl_line.split(" ")[:2]: return False
+    try: m, i = out_groups(model_line), out_groups(impl_line)
+    except ValueError: return False
+    if m is None or i is None: return m is None and i is None
+    if len(m) != len(i) or any(len(x) != len(y) for x, y in zip(m, i)): return False
+    return all(abs(x - y) <= F_TOL * max(1, abs(x)) for gx, gy in zip(m, i) for x, y in zip(gx, gy))
 
 def key_of(line, build, msg):
     h = line.split("|")[0].split()
@@ -486,7 +731,7 @@ def main():
                         k, l2 = (l[1:].split(" ", 1) if l.startswith("%") else ("float" if "0x" in l else "exact", l)); cases.append((k, l2))
         cases += gen_cases(ck.rng, ck.tier)
     lines = [[c[1]] for c in cases]
-    mo = run_cases(model, [[c[1]] if c[0] in MODEL_KINDS else ["N"] for c in cases], os.path.join(tmpd, "model_in.txt"), timeout=1700)
+    mo = run_cases(model, [[c[1]] if c[0] in MODEL_KINDS else (["F " + c[1]] if c[0] in FMODEL_KINDS else ["N"]) for c in cases], os.path.join(tmpd, "model_in.txt"), timeout=1700)
     nviol = 0; ndis = 0; cover = {}; reported = set()
     for bname, exe in builds.items():
         io = run_cases(exe, lines, os.path.join(tmpd, "impl_%s.txt" % bname), timeout=1700)
@@ -499,7 +744,7 @@ def main():
                 o = (b[0] if b else ""); msgs = ["implementation crashed/timed out (rc=%s) %s" % (rcb, o)]
             else:
                 o = b[0]; msgs = monitor(kind, line, o)
-            dis = (not msgs) and not a[0].endswith(" -") and ((kind == "exact" and not same(a[0], o)) or (kind == "lustruct" and not close_lu(a[0], o)))
+            dis = (not msgs) and not a[0].endswith(" -") and ((kind in ("exact", "xlsq") and not same(a[0], o)) or (kind == "lustruct" and not close_lu(a[0], o)) or (kind in FMODEL_KINDS and not close_f(a[0], o)))
             if msgs or dis:
                 msg = msgs[0] if msgs else "model and implementation differ"
                 key = key_of(line, bname, msg)
